@@ -1,17 +1,17 @@
 """Which units (and extra engines) serve which property, plus MANIFEST metadata."""
-UNITS = ['u_list', 'u_jobs', 'u_tok', 'u_plan', 'u_exp1', 'u_calc', 'u_exp2', 'u_wait', 'u_fd', 'u_env', 'u_args', 'u_proc', 'u_exp3', 'u_bfd', 'u_blt', 'u_jcmd', 'u_read', 'u_cmpl']
+UNITS = ['u_script', 'u_list', 'u_jobs', 'u_tok', 'u_plan', 'u_exp1', 'u_calc', 'u_exp2', 'u_wait', 'u_fd', 'u_env', 'u_args', 'u_proc', 'u_exp3', 'u_bfd', 'u_blt', 'u_jcmd', 'u_read', 'u_cmpl']
 
 PROPERTY_UNITS = {
     'C03': ['u_list', 'u_tok'],
     'C06': ['u_jobs', 'u_wait'],
-    'C05': ['u_list', 'u_jobs', 'u_tok', 'u_plan', 'u_exp1', 'u_calc', 'u_exp2', 'u_wait', 'u_fd', 'u_env', 'u_args', 'u_proc', 'u_exp3', 'u_bfd', 'u_blt', 'u_jcmd', 'u_read', 'u_cmpl'],
+    'C05': ['u_script', 'u_list', 'u_jobs', 'u_tok', 'u_plan', 'u_exp1', 'u_calc', 'u_exp2', 'u_wait', 'u_fd', 'u_env', 'u_args', 'u_proc', 'u_exp3', 'u_bfd', 'u_blt', 'u_jcmd', 'u_read', 'u_cmpl'],
     'C01': ['u_plan', 'u_exp1', 'u_exp2', 'u_exp3', 'u_tok', 'u_fd'],
     'C13': ['u_plan', 'u_exp1', 'u_exp2', 'u_exp3'],
     'C12': ['u_exp1', 'u_exp2'],
     'C10': ['u_exp2'],
     'C11': ['u_exp3', 'u_exp2', 'u_blt', 'u_plan'],
     'C07': ['u_fd', 'u_proc', 'u_plan', 'u_jobs', 'u_wait', 'u_jcmd'],
-    'C15': ['u_args'],
+    'C15': ['u_args', 'u_script'],
     'C09': ['u_env', 'u_exp2', 'u_proc', 'u_read'],
     'C02': ['u_fd', 'u_wait', 'u_plan', 'u_blt'],
     'C04': ['u_fd', 'u_plan', 'u_bfd', 'u_blt'],
@@ -37,7 +37,8 @@ META = {
     'C03': {
         'text': 'Verus proves, for every token list line_to_cmds can return and every status sequence, that the real '
                 'run_command_line loop runs exactly the pipelines the list semantics prescribes (left to right, && / || '
-                'short-circuit, skip-and-continue), updates previous_status after each run and returns the results in order.',
+                'short-circuit, skip-and-continue), updates previous_status after each run and returns the results in order; and (U-TOK) that the list '
+                'never contains an empty command (a blank tail after the last operator is not a pipeline), so the last pipeline run decides the status.',
         'note': 'run_proc is external (assumed to run the pipeline once and return its status); line_to_cmds is uninterpreted here; '
                 'string equality / clone shims assumed (std); main.rs exit-with-previous_status lines read, not verified.',
     },
@@ -77,7 +78,9 @@ META['C13'] = {
             'never taken as "&", "<", "<<<" or an output redirection, for all token texts. Unquoted half (after fix 8430d58): expand_env, both substitution passes and '
             'expand_glob tag a word as double-quoted when the value / output / file name brings | & < > into it (ghost record taken where the output is obtained), so the same '
             'tag-honouring contracts apply to it.',
-    'note': 'NAME=value assignment words are exempt (they are taken off the line before operators are looked for); a word that already contained an operator character before '
+    'note': 'only the untagged NAME=value words the line STARTS with are exempt (in_assignment_prefix, verified against assign_prefix: exactly the words that are taken off the '
+            'line as assignments before operators are looked for; drain_env_tokens itself is external); a NAME=value shaped argument is tagged like any other word; '
+            'a word that already contained an operator character before '
             'expansion is not tagged; has_operator_char is verified against its spec; glob::glob and the regexes are uninterpreted.',
 }
 
@@ -85,9 +88,12 @@ META['C12'] = {
     'text': 'Verus proves for expand_brace, expand_glob and expand_brace_range that the final token list is exactly the specified splice: every rewritten token is unquoted and '
             'matches the gate, all other tokens stay where they are in order, each produced word list replaces its token in place, a word with a blank gets the double-quote tag; '
             'the numeric range is the inclusive arithmetic sequence toward the end bound (no overflow, terminates); a glob pattern never vanishes, hidden entries are filtered by '
-            'the stated rule; the recursive brace parser is memory-safe and terminates on every string.',
-    'note': 'regexes (gates, range captures) and glob::glob are uninterpreted shims; str::parse::<i32> by its std contract; tokens shorter than 2^31 chars; the functional brace '
-            'grammar (cartesian product) is not claimed (bounded cases only); the text around {m..n} is kept (head + number + tail, after fix b950024); expand_home in U-EXP2.',
+            'the stated rule (last component, and no directory on the way that starts with a dot the pattern does not spell out); the recursive brace parser is memory-safe, '
+            'terminates, and for EVERY word returns exactly the specified expansion (spec functions sp_item / sp_group: one word per alternative in order, cartesian product '
+            'with the earlier group varying slowest, nesting, empty alternatives, a group without a comma is text, unbalanced braces are text); expand_brace puts exactly those words in place.',
+    'note': 'regexes (gates, range captures), glob::glob and below_hidden_dir (str::split + glob::Pattern) are uninterpreted shims; str::parse::<i32> by its std contract; tokens '
+            'shorter than 2^31 chars; the brace specification itself is validated against the examples of the statement by computation (lemma_brace_spec_examples) and, through '
+            'the real binary, against an independent reference expansion of random terms (bounded); the text around {m..n} is kept (head + number + tail); expand_home in U-EXP2.',
 }
 
 META['C19'] = {
@@ -151,9 +157,12 @@ META['C09'] = {
 META['C15'] = {
     'text': 'Verus proves that the positional-parameter pass replaces every $n / ${n} / $@ reference of a word left to right by the corresponding argument (nothing when missing, '
             'the arguments joined by blanks for $@), keeps the text in between, terminates, never touches single-quoted or backquoted tokens nor any tag; that a function call '
-            'runs its body with the positional parameters [name, words of the call] and that its status is that of the last command the body ran.',
-    'note': 'the reference regex is uninterpreted (assumed: anchored, group 3 a proper suffix); scripting::run_lines / run_exp (pest interpreter), function extraction, '
-            'source, exit and set -e are external and not covered (see C14).',
+            'runs its body with the positional parameters [name, words of the call] and that its status is that of the last command the body ran; and for the statement runners '
+            '(run_lines, run_exp, run_exp_while, stopped_by_error; U-SCRIPT) that after set -e no statement, loop round or top-level statement is started once the last result is a '
+            'failure, whatever kind of statement produced it, and that otherwise every statement of a body is started unless continue / break was met.',
+    'note': 'the reference regex is uninterpreted (assumed: anchored, group 3 a proper suffix); the pest parse tree is opaque (text, rule and children of a node uninterpreted), '
+            'run_exp_if / run_exp_for / run_exp_test_br are external (run_exp_for stops its rounds by the same test: bounded cases only); function extraction, source and exit '
+            'are covered by the bounded script cases only (see C14).',
 }
 
 META['C07'] = {
